@@ -4,7 +4,11 @@
   `spoofLoop` goroutine; one atomic step per `h.Lock()…h.Unlock()` section, one per frame written.
 
   Code modelled: after `fix: icmp6 ProcessPacket closed closeChan again when a router advertisement
-  arrived after Close` (Close and the wake-up now run under the handler mutex).
+  arrived after Close` (Close and the wake-up now run under the handler mutex) and after
+  `fix: icmp6 spoofLoop wrote its neighbour advertisements after releasing the handler mutex`: the
+  check of an iteration and all the advertisements of that iteration are ONE critical section of the
+  handler mutex.  `State.holder` is the loop that holds the mutex across its batch; every transition
+  that takes the mutex is enabled only while `holder = none`.
 
     startHunt mac cls   StartHunt(addr): IPv4 → ErrInvalidIP; IPv6 that is not link-local unicast → no
                         change; otherwise under the lock: already in the list → nothing, else append and
@@ -13,11 +17,12 @@
                         → nothing; else huntList.Del(addr) under the lock
     close               Close()
     check i             loop i: Lock(); if mac ∉ huntList ∨ closed → Unlock, return;
-                        if Router ≠ nil → copy the LANRouters addresses, Unlock, pc := send list
+                        if Router ≠ nil → copy the LANRouters addresses, pc := send list, the mutex stays
+                        held (holder := i; an empty list: Unlock, pc := wait)
                         else Unlock, pc := wait
     send i r            loop i writes ONE neighbour advertisement (dst = its target, target address = r,
                         any not yet advertised router of the copied list – Go map iteration order) –
-                        after the lock was released
+                        with the mutex held; after the last one of the batch: Unlock (holder := none)
     wake i              the `select` of loop i returns (timer 2–2.8 s, or closeChan closed by Close / RA)
     ra …                ProcessPacket on a router advertisement: `repeat++`, every 4th is processed,
                         options parsed, router found or created (first one becomes `h.Router`), fields stored
@@ -64,6 +69,9 @@ structure State where
   rep : Int := -1                           -- package variable `repeat`
   nloops : Nat := 0
   loops : Nat → Loop := fun _ => {}
+  /-- the loop that holds the handler mutex across its batch of advertisements (`none`: the mutex is
+      free between two atomic steps) -/
+  holder : Option Nat := none
   /-- history variable (never read by a transition): MACs for which a StartHunt was accepted -/
   started : List Bytes := []
 
@@ -135,32 +143,42 @@ def processRA (s : State) (r : RaIn) : Outcome (State × Bool) :=
   else if (s.rep + 1) % 4 ≠ 0 then .ok ({ s with rep := s.rep + 1 }, true)
   else raBody { s with rep := s.rep + 1 } r
 
+/-- `Handler6.Mutex` is free: no loop is in the middle of its batch -/
+abbrev free (s : State) : Prop := s.holder = none
+
 def step (s : State) : Event → Option (State × Out)
   | .startHunt mac cls =>
     if cls = .v4 then some (s, .start .errInvalidIP)
     else if cls = .other6 then some (s, .start .noChange)
+    else if ¬ free s then none        -- h.Lock() waits for the batch in flight
     else if mac ∈ s.hunt then some (s, .start .hunt)
     else some ({ s with hunt := s.hunt ++ [mac], nloops := s.nloops + 1, started := mac :: s.started,
                         loops := updLoop s.loops s.nloops { mac := mac, pc := .check } }, .start .hunt)
   | .stopHunt mac eff =>
-    if eff then some ({ s with hunt := s.hunt.erase mac }, .none) else some (s, .none)
-  | .close => some ({ s with closed := true }, .none)
+    if eff then
+      if free s then some ({ s with hunt := s.hunt.erase mac }, .none) else none
+    else some (s, .none)
+  | .close => if free s then some ({ s with closed := true }, .none) else none
   | .check i =>
-    if (s.loops i).pc = .check then
+    if (s.loops i).pc = .check ∧ free s then
       if (s.loops i).mac ∉ s.hunt ∨ s.closed then
         some ({ s with loops := updLoop s.loops i { s.loops i with pc := .done } }, .none)
       else if s.defaultRouter.isSome then
         match s.routers.map (·.1) with
         | [] => some ({ s with loops := updLoop s.loops i { s.loops i with pc := .wait } }, .none)
-        | l => some ({ s with loops := updLoop s.loops i { s.loops i with pc := .send l } }, .none)
+        | l => some ({ s with loops := updLoop s.loops i { s.loops i with pc := .send l }, holder := some i }, .none)
       else some ({ s with loops := updLoop s.loops i { s.loops i with pc := .wait } }, .none)
     else none
   | .send i r =>
     match (s.loops i).pc with
     | .send p =>
       if r ∈ p then
-        let pc' : Pc := if (p.erase r).isEmpty then .wait else .send (p.erase r)
-        some ({ s with loops := updLoop s.loops i { s.loops i with pc := pc' } }, .na (s.loops i).mac r)
+        if (p.erase r).isEmpty then
+          some ({ s with loops := updLoop s.loops i { s.loops i with pc := .wait }, holder := none },
+                .na (s.loops i).mac r)
+        else
+          some ({ s with loops := updLoop s.loops i { s.loops i with pc := .send (p.erase r) } },
+                .na (s.loops i).mac r)
       else none
     | _ => none
   | .wake i =>
@@ -168,9 +186,12 @@ def step (s : State) : Event → Option (State × Out)
       some ({ s with loops := updLoop s.loops i { s.loops i with pc := .check } }, .none)
     else none
   | .ra r =>
-    match processRA s r with
-    | .ok (s', ok) => some (s', .raResult ok)
-    | _ => none
+    -- a message shorter than the fixed part is refused before the mutex is touched
+    if ¬ free s ∧ 16 ≤ r.payload.length then none
+    else
+      match processRA s r with
+      | .ok (s', ok) => some (s', .raResult ok)
+      | _ => none
   | .envRepeat v => some ({ s with rep := v }, .none)
 
 /-- run a trace, collecting the outputs -/
